@@ -27,6 +27,7 @@ import (
 	"oras.land/oras-go/v2/content/memory"
 	"oras.land/oras-go/v2/content/oci"
 	"oras.land/oras-go/v2/errdef"
+	"oras.land/oras-go/v2/internal/docker"
 	"oras.land/oras-go/v2/registry/remote"
 )
 
@@ -248,6 +249,45 @@ func runCopy(mode string, seed int64, tier string, sc *Script) map[string]any {
 		caseNo++
 		exec(copyCase{u: u, roots: []int{root}, dst: "memory", conc: 1, label: "corpus-F10-memory-dst"}, caseNo)
 		caseNo++
+		// several foreign (non-distributable) layers interleaved with ordinary ones: the ordinary
+		// ones are all copied, whatever their position
+		for vi, pattern := range []string{"fLfL", "LfLfL", "ffL", "fLLf", "LffLfL", "ff"} {
+			u := NewUniverse()
+			cfgB := u.AddBlob(ocispec.MediaTypeImageConfig, []byte(fmt.Sprintf("{\"fl\":%d}", vi)))
+			var layers []int
+			for k, ch := range pattern {
+				if ch == 'f' {
+					mt := []string{ocispec.MediaTypeImageLayerNonDistributable, ocispec.MediaTypeImageLayerNonDistributableGzip, docker.MediaTypeForeignLayer}[k%3]
+					layers = append(layers, u.AddBlob(mt, []byte(fmt.Sprintf("foreign-%d-%d", vi, k))).ID)
+				} else {
+					layers = append(layers, u.AddBlob(ocispec.MediaTypeImageLayer, []byte(fmt.Sprintf("ordinary-%d-%d", vi, k))).ID)
+				}
+			}
+			m := u.AddImage(KOCIManifest, cfgB.ID, layers, -1, "", map[string]string{"fl": pattern})
+			for _, dk := range []dstKind{"memory", "oci"} {
+				exec(copyCase{u: u, roots: []int{m.ID}, dst: dk, conc: 1 + vi%3, label: "corpus-foreign-interleaved"}, caseNo)
+				caseNo++
+			}
+		}
+	}
+	if mode == "C02" || mode == "C04" {
+		// the same bytes under two media types (a config and a layer that are both "{}", a
+		// manifest also listed as an opaque blob) into a destination that tells them apart:
+		// they are two nodes, each copied, each waited for
+		for vi := 0; vi < 4; vi++ {
+			u := NewUniverse()
+			var root int
+			if vi%2 == 0 {
+				cfgB := u.AddBlob(ocispec.MediaTypeEmptyJSON, []byte("{}"))
+				alias := u.AddBlob("application/vnd.verif.attestation+json", []byte("{}"))
+				other := u.AddBlob(ocispec.MediaTypeImageLayer, []byte(fmt.Sprintf("alias-other-%d", vi)))
+				root = u.AddImage(KOCIManifest, cfgB.ID, []int{other.ID, alias.ID}, -1, "", map[string]string{"alias": fmt.Sprint(vi)}).ID
+			} else {
+				u, root = f10Universe()
+			}
+			exec(copyCase{u: u, roots: []int{root}, dst: "memory", conc: 1 + vi, label: "corpus-same-bytes-two-media-types"}, caseNo)
+			caseNo++
+		}
 	}
 	n := 150
 	if tier == "thorough" {
@@ -407,6 +447,31 @@ func runCopy(mode string, seed int64, tier string, sc *Script) map[string]any {
 			op := []string{"push", "fetch", "preCopy", "postCopy", "exists"}[rng.Intn(5)]
 			cc := copyCase{u: u, roots: []int{root.ID}, dst: []dstKind{"memory", "oci"}[rng.Intn(2)], conc: 2 + rng.Intn(4),
 				faults: []fault{{op: op, node: shared.ID, mode: "before"}}, label: "shared-failing-kid"}
+			exec(cc, caseNo)
+			caseNo++
+		}
+	}
+	// C04: Copy (by reference) of a root that the destination already holds, with the
+	// OnCopySkipped callback failing for that root: the copy ends with that error, for every
+	// kind of destination
+	if mode == "C04" {
+		for vi := 0; vi < 6; vi++ {
+			u := GenDAG(rng, GenCfg{Blobs: 2, Manifests: 2 + vi%2, Indexes: vi%2 == 0})
+			root := -1
+			for k := len(u.Nodes) - 1; k >= 0; k-- {
+				if u.Nodes[k].Kind.IsManifest() {
+					root = k
+					break
+				}
+			}
+			if root < 0 {
+				continue
+			}
+			cc := copyCase{u: u, roots: []int{root}, dst: []dstKind{"memory", "oci", "file"}[vi%3], conc: 1 + vi%2, useCopy: true,
+				pre: downClosure(u, []int{root}), faults: []fault{{op: "skipped", node: root, mode: "before"}}, label: "present-root-skipped-callback-fails"}
+			if vi >= 3 {
+				cc.dstRef = "dst-tag"
+			}
 			exec(cc, caseNo)
 			caseNo++
 		}
